@@ -729,4 +729,91 @@ Section PRev.
         * apply (Hvia_fast (i + 2) _ (tok mod 16) r3 Hrl); try lia. fin.
   Qed.
 
+  Lemma fast_top_pcases s (bs rout : list Z) :
+    src_at srcm (ip s) bs -> bytes bs -> ip s + Z.of_nat (length bs) = iend -> 0 <= ip s < iend ->
+    0 <= op s -> op s <= oend - 64 -> out_at (vget (dm s)) (op s) rout -> pavail (op s) rout ->
+    ptop_post s bs rout (fast_top true dict srcm iend oend lowPrefix rlow dictm dictSize s).
+  Proof.
+    intros Hs Hb Hie Hip Hop Hoe O Hav.
+    destruct bs as [|tok r]; [cbn [length] in Hie; lia|].
+    destruct (bytes_cons _ _ Hb) as [Htok Hbr].
+    destruct (src_at_cons _ _ _ _ Hs) as [Htokm Hsr].
+    destruct (nibbles tok Htok) as [Hn1 Hn2].
+    cbn [length] in Hie.
+    unfold fast_top. cbv zeta. rewrite Htokm.
+    assert (HL : forall p1 kf ll (r1 : list Z), read_len (tok / 16) r = Some (ll, r1) ->
+               src_at srcm p1 r1 -> bytes r1 -> p1 + Z.of_nat (length r1) = iend -> 0 <= p1 -> 0 <= ll ->
+               ptop_post s (tok :: r) rout
+                 (safe_lit true dict srcm iend oend lowPrefix rlow dictm dictSize (mkD p1 (op s) (dm s) kf) tok ll)).
+    { intros p1 kf ll r1 Hrl Hs1 Hb1 Hie1 Hp1 Hll.
+      pose proof (safe_lit_pcases p1 (op s) (dm s) kf tok r1 rout ll Hs1 Hb1 Hie1 Hp1 Htok Hll Hop ltac:(lia) O Hav) as HC.
+      destruct (safe_lit true dict srcm iend oend lowPrefix rlow dictm dictSize (mkD p1 (op s) (dm s) kf) tok ll) as [f s'|s'|s'];
+        cbn [plit_post ptop_post] in *; [| | exact I].
+      - destruct HC as (Hf & lits & o1 & o2 & r3 & ml & r4 & H1 & H2 & H3 & H3' & H4 & H5).
+        split; [intros; subst f; discriminate|].
+        exists tok, r, ll, r1, lits, o1, o2, r3, ml, r4.
+        split; [reflexivity|]. split; [exact Hrl|]. split; [exact H1|]. split; [exact H2|].
+        destruct (take_spec _ _ _ _ H1) as [Er1 Hl]. unfold byte in *.
+        assert (length r1 = (length lits + S (S (length r3)))%nat) by (rewrite Er1, app_length; reflexivity).
+        apply read_len_shorter in Hrl. cbn [length].
+        split; [lia|]. split; [lia|]. split; [exact H3' | exact H5].
+      - exists tok, r, ll, r1. split; [reflexivity|]. split; [exact Hrl|]. split; [exact Hll | exact HC]. }
+    assert (HF : forall p1 kf ll (r1 lits r2 : list Z) m1, read_len (tok / 16) r = Some (ll, r1) ->
+               src_at srcm p1 r1 -> bytes r1 -> p1 + Z.of_nat (length r1) = iend -> 0 <= p1 ->
+               take (Z.to_nat ll) r1 = Some (lits, r2) -> ll = Z.of_nat (length lits) -> (3 <= length r2)%nat ->
+               op s + ll <= oend ->
+               same_below (dm s) m1 (op s) ->
+               (forall j, (j < length lits)%nat -> get m1 (op s + Z.of_nat j) = nth j lits 0) ->
+               ptop_post s (tok :: r) rout
+                 (fast_offset true dict srcm iend oend lowPrefix rlow dictm dictSize (mkD (p1 + ll) (op s + ll) m1 kf) tok)).
+    { intros p1 kf ll r1 lits r2 m1 Hrl Hs1 Hb1 Hie1 Hp1 Ht Ell Hr2 Hfit S1 L1.
+      destruct r2 as [|o1 [|o2 r3]]; try (cbn [length] in Hr2; lia).
+      destruct (take_spec _ _ _ _ Ht) as [Er1 _]. unfold byte in *. subst r1.
+      destruct (src_at_app _ _ _ _ Hs1) as [Hsl Hs2]. destruct (bytes_app _ _ Hb1) as [_ Hb2].
+      rewrite app_length in Hie1. cbn [length] in Hie1, Hr2. subst ll.
+      pose proof (fast_offset_pcases (p1 + Z.of_nat (length lits)) (op s) m1 kf tok o1 o2 r3 rout lits Hs2 Hb2) as HA.
+      specialize (HA ltac:(cbn [length]; lia) ltac:(lia) Htok Hop ltac:(lia) Hfit).
+      specialize (HA ltac:(apply lits_out_v with (m := dm s); assumption) Hav).
+      destruct (fast_offset true dict srcm iend oend lowPrefix rlow dictm dictSize
+                  (mkD (p1 + Z.of_nat (length lits)) (op s + Z.of_nat (length lits)) m1 kf) tok) as [f s'|s'|s'];
+        cbn [ptop_post]; [| | exact I].
+      - destruct HA as (Hf & ml & r4 & H1 & H2 & H2' & H3 & H4).
+        split; [exact Hf|].
+        exists tok, r, (Z.of_nat (length lits)), (lits ++ o1 :: o2 :: r3), lits, o1, o2, r3, ml, r4.
+        split; [reflexivity|]. split; [exact Hrl|]. split; [exact Ht|]. split; [exact H1|].
+        apply read_len_shorter in Hrl. rewrite app_length in Hrl. cbn [length] in *.
+        split; [lia|]. split; [lia|]. split; [exact H2' | exact H4].
+      - destruct HA as (ml & r4 & H1 & H4).
+        exists tok, r, (Z.of_nat (length lits)), (lits ++ o1 :: o2 :: r3). split; [reflexivity|]. split; [exact Hrl|]. split; [lia|]. right.
+        exists lits, o1, o2, r3, ml, r4. repeat split; assumption. }
+    destruct (tok / 16 =? RUN_MASK) eqn:E15; cbv beta iota.
+    - pose proof (prvl_rev r (ip s + 1) (iend - RUN_MASK) true (ok s && rd_src iend (ip s) 1) Hsr ltac:(lia) ltac:(fin)) as HR.
+      destruct (rvl srcm iend (ip s + 1) (iend - RUN_MASK) true (ok s && rd_src iend (ip s) 1)) as [[[addl|] p'] k']; [|exact I].
+      destruct HR as (v & r1 & H1 & H2 & H3 & H4 & H5).
+      assert (Hrl : read_len (tok / 16) r = Some (v, r1)).
+      { unfold read_len. assert (E : (tok / 16 =? 15) = true) by fin. rewrite E. exact H1. }
+      destruct (read_len_suffix srcm iend _ _ _ _ (ip s + 1) Hn1 Hrl Hbr Hsr) as (_ & Hv & _ & Hs1 & Hb1).
+      replace (tok / 16 + addl) with v by fin.
+      unfold byte in *. rewrite <- H3 in Hs1.
+      destruct ((op s + v >? oend - 32) || (p' + v >? iend - 32)) eqn:Enear; cbv beta iota.
+      + apply (HL p' k' v r1 Hrl); try assumption; lia.
+      + destruct (ptake_total (Z.to_nat v) r1) as (lits & r2 & Ht & Hr1 & Hlen); [lia|].
+        unfold byte in *.
+        apply (HF p' _ v r1 lits r2 _ Hrl); try assumption; try lia.
+        * subst r1. rewrite app_length in *. lia.
+        * apply wild32_in_same_below.
+        * replace v with (Z.of_nat (length lits)) by lia. apply wild32_in_lits.
+          subst r1. apply (src_at_app _ _ _ _ Hs1).
+    - assert (Hrl : read_len (tok / 16) r = Some (tok / 16, r)).
+      { unfold read_len. assert (E : (tok / 16 =? 15) = false) by fin. rewrite E. reflexivity. }
+      destruct (ip s + 1 <=? iend - (16 + 1)) eqn:E17; cbv beta iota.
+      + destruct (ptake_total (Z.to_nat (tok / 16)) r) as (lits & r2 & Ht & Hr1 & Hlen); [fin|].
+        unfold byte in *.
+        apply (HF (ip s + 1) _ (tok / 16) r lits r2 _ Hrl); try assumption; try lia.
+        * subst r. rewrite app_length in *. fin.
+        * apply blit_same_below.
+        * apply (blit_lits srcm); [|fin]. subst r. apply (src_at_app _ _ _ _ Hsr).
+      + apply (HL (ip s + 1) _ (tok / 16) r Hrl); try assumption; lia.
+  Qed.
+
 End PRev.
